@@ -329,7 +329,66 @@ def cli_property(spec, seed):
     return None
 
 
+def attach_field_tie(d, ck):
+    """`--attach-load` with every combination of field kinds (integers 0, 1, 2, 3, 9, -1, the keyword `all`, a word, an empty
+    field) in 1-4 fields, one load defined: accepted or refused as the Lean field parser says, and when accepted the load
+    sits where `register_load` puts it for the parsed (pulse, tag).  Returns (disagreements, violations)."""
+    import itertools
+    from common import run_main
+    from mininec.mininec import Impedance_Load
+    base = ['-f', '10', '-w', '1,4,0,0,0,0,0,4,.001', '-w', '3,3,0,0,4,2,0,5,.001', '--excitation-pulse=1', '--load=5']
+    vals = ['0', '1', '2', '3', '9', '-1', 'all', 'x', '']
+    dis, viol = [], []
+    for k in (1, 2, 3, 4):
+        for fs in itertools.product(vals, repeat=k):
+            if k == 4 and fs[0] not in ('1', 'all'):
+                continue
+            toks = []
+            for v in fs:
+                toks.append('all' if v == 'all' else 'junk' if v in ('x', '') else ('i' + v))
+            ans = d.ask('cmd parseatt', 1, k, *toks)
+            argv = base + ['--attach-load=' + ','.join(fs)]
+            r = run_main(argv, want_mininec=True)
+            ck.count('attach_field_cases')
+            if r['kind'] == 'crash':
+                viol.append(dict(kind='attach-fields', argv=argv, observed='--attach-load=%s: %s' % (','.join(fs), r['exc'])))
+                continue
+            if ans == 'error':
+                if r['m'] is not None:
+                    dis.append(dict(argv=argv, why='--attach-load=%s accepted by main, refused by the field model' % ','.join(fs)))
+                continue
+            _, l, p, t = ans.split()
+            pulse = None if p == '-' else int(p)
+            tag = None if t == '-' else int(t)
+            m0 = run_main(base[:-1], want_mininec=True)['m']
+            ld = Impedance_Load(5 + 0j)
+            try:
+                m0.register_load(ld, pulse, tag)
+                want = sorted(q.idx for q in ld.pulses)
+            except (ValueError, KeyError):
+                want = None
+            if want is None:
+                if r['m'] is not None:
+                    viol.append(dict(kind='attach-fields', argv=argv,
+                                     observed='--attach-load=%s is accepted although pulse %r of tag %r does not exist' % (','.join(fs), pulse, tag)))
+                continue
+            if r['m'] is None:
+                dis.append(dict(argv=argv, why='--attach-load=%s refused by main (%s), the field model and register_load accept it'
+                                % (','.join(fs), (r['err'] or r['out']).strip().split('\n')[-1][:80])))
+                continue
+            got = sorted(q.idx for q in r['m'].loads[0].pulses)
+            if got != want:
+                viol.append(dict(kind='attach-fields', argv=argv,
+                                 observed='--attach-load=%s loads pulses %r, the named pulses are %r' % (','.join(fs), [x + 1 for x in got], [x + 1 for x in want])))
+    return dis, viol
+
+
 def replay(rp):
+    if rp.get('kind') == 'attach-fields':
+        from common import run_main
+        r = run_main(rp['argv'], want_mininec=True)
+        print('replay', rp['argv'][-1], '->', r['kind'], r['exc'] or (r['err'] or '').strip()[-100:])
+        return 1 if r['kind'] == 'crash' else 0
     if rp.get('kind') == 'cli':
         bad = cli_property(rp['spec'], rp['cli_seed'])
         print('replay ->', bad or 'property holds')
@@ -423,6 +482,12 @@ def run(ck):
             if bad:
                 ck.violation(dict(kind='cli', spec=spec, cli_seed=cseed, observed=bad))
                 return
+    adis, aviol = attach_field_tie(d, ck)
+    dis += adis
+    for v in aviol[:3]:
+        ck.violation(v)
+    if aviol:
+        return
     ck.stats['disagreements'] = len(dis)
     ck.stats['queries'] = nq
     ck.cov['rule'] = ('random wire graphs with automatic / explicit permuted / sparse / mixed tags; every absolute number -1..N+1, '
